@@ -10,8 +10,8 @@ from ..ctx import stable_hash
 
 ID = "C12"
 LEVEL = "exploration"
-TIERS = {"quick": {"shards": 16, "budget_s": 30, "runs": 100, "line_runs": 12, "stress_runs": 12, "systematic_pipelines": 2, "systematic_deviations": 1},
-         "thorough": {"shards": 16, "budget_s": 480, "runs": 9000, "line_runs": 600, "stress_runs": 150, "systematic_pipelines": 6, "systematic_deviations": 2}}
+TIERS = {"quick": {"shards": 16, "budget_s": 120, "runs": 100, "line_runs": 12, "stress_runs": 12, "systematic_pipelines": 2, "systematic_deviations": 1},
+         "thorough": {"shards": 16, "budget_s": 900, "runs": 9000, "line_runs": 600, "stress_runs": 150, "systematic_pipelines": 6, "systematic_deviations": 2}}
 RULE = ("The real TokenizerWorker + observer workers (recording observers, PrintWorker with captured stdout, RegionSaverWorker, "
         "AudioEventsJoinerWorker; optionally a StreamSaverWorker as reader) run under a deterministic cooperative scheduler that "
         "replaces auditok.workers.Queue and Worker.start/join: exactly one thread runs at a time, every hand-over and every "
